@@ -13,8 +13,12 @@ import CLModel.Proofs.C06SpecsCor
 import CLModel.Proofs.C06RxPrintf
 import CLModel.Proofs.C06Plural
 import CLModel.Proofs.C06Render
+import CLModel.Proofs.C06RCor
+import CLModel.Proofs.C06RPluralLex
 namespace C06
 open PropCk Difflib
+open C06R (WfRender WfTok WfFmt Separated LoneOk IsSpec IsDig WShape PShape MixedR GapR rargs tokA sig kindOf
+  PTok renderP varsOf WfRenderP WfPTok SeparatedP rePlural)
 
 /-! ## difflib -/
 
@@ -68,20 +72,10 @@ theorem specs_reorder (ts ts' : List (Nat × ATok)) (hwf : WFToks ts)
   specsSpec_reorder ts ts' hwf hperm hord hcons
 
 /-
-Full statement (the generator's view: a value *assembled from* tokens lexes back to them):
-
-  theorem specs_of_rendered (ts : List RTok) (hwf : WfRender ts) :
-      atoks (render ts) = some (expectedFrom 0 ts)
-
-  where `WfRender` says: text tokens contain no `%`; a lone `%` is followed by the end of the value
-  or by a text token whose first character is none of `%0-9*.$duxXosScpfg`; `fmt` is
-  `(\*|[0-9]+)?(\.(\*|[0-9]+)?)?`; numbers are ≥ 1; types are in `duxXosScpfg`.
-
-Together with `specs_of_tokens` it gives `getPrintfSpecs (render ts) = specsSpec (expectedFrom 0 ts)`.
-What is missing for all token lists is an *exact* (priority-respecting) evaluation of the backtracking
-matcher on symbolic digit runs (`%10d` first tries `10` as an argument number); `Rx.Sem` is only an
-over-approximation.  Proved: the bounded family below, by evaluating the regex engine in the kernel;
-beyond the bound the statement is checked by the harness (independent scanner on every generated value).
+The generator's view — a value *assembled from* tokens lexes back to them — was first proved for a
+bounded family only (`specs_of_rendered_partial`, by kernel evaluation).  It is now proved for token
+lists of ANY length (`atoks_render` … `printf_rendered_error_iff` below, section "values assembled
+from tokens"); the bounded theorem is kept as an independent cross-check of the general proof.
 -/
 
 /-- `_partial`: every well-formed token list of the bounded family (≤ 2 tokens over
@@ -94,6 +88,75 @@ theorem specs_of_rendered_partial (ts : List RTok) (hmem : ts ∈ boundedFamily)
   have h := List.all_eq_true.mp boundedFamily_lexes ts hmem
   have h' : atoks (render ts) = some (expectedFrom 0 ts) := by simpa using h
   exact ⟨h', getPrintfSpecs_eq_spec _ _ h'⟩
+
+/-! ## values assembled from tokens (any number of tokens)
+
+`RTok` is the generator's alphabet: text, `%%`, a lone `%`, `%[n$][width][.prec]c`.
+`WfRender ts` = every token is well formed (`WfTok`: text contains no `%`; `n ≥ 1`, written by
+`"%d" % n`; the format part is `(\*|[0-9]+)?(\.(\*|[0-9]+)?)?`; `c` is one of `duxXosScpfg`) and the
+sequence is `Separated`: what follows a lone `%` (the rest of the rendered value) is empty or starts
+with a character that is not `%`, not a digit, not `*`, not `.` and not a conversion character.
+Nothing is required after `%%` or after an argument (their last character closes the match), and
+text may be empty. -/
+
+/-- **A value assembled from well-formed, separated tokens lexes back to exactly those tokens**, with
+    their offsets — for token lists of any length.  (Exact, priority-respecting evaluation of
+    `finditer` for the generated `printf` regex: every match starts at a `%`, between matches there is
+    only `%`-free text, `%10d` first tries `10` and `1` as argument number and falls back to the width.) -/
+theorem atoks_render (ts : List RTok) (h : WfRender ts) : atoks (render ts) = some (expectedFrom 0 ts) :=
+  C06R.atoks_render ts h
+
+/-- `getPrintfSpecs` of an assembled value is the closed form on the intended tokens (full strength
+    version of `specs_of_rendered_partial`). -/
+theorem specs_of_rendered (ts : List RTok) (h : WfRender ts) :
+    getPrintfSpecs (render ts) = specsSpec (expectedFrom 0 ts) :=
+  C06R.specs_of_rendered ts h
+
+/-- **Error classification in terms of the tokens**: `getPrintfSpecs` of the assembled value raises iff
+    the token list contains a lone `%`, or both ordered and unordered arguments, or only ordered
+    arguments whose numbers have a gap — and what it raises is always `PrintfException`. -/
+theorem specs_rendered_error_iff (ts : List RTok) (h : WfRender ts) :
+    ((∃ e, getPrintfSpecs (render ts) = .error e) ↔ RTok.lone ∈ ts ∨ MixedR ts ∨ GapR ts) ∧
+    (∀ e, getPrintfSpecs (render ts) = .error e → ∃ msg pos, e = .printf msg pos) :=
+  C06R.specs_rendered_error_iff ts h
+
+/-- Unordered arguments (with any text and `%%` around them): the list of their types, in order. -/
+theorem specs_rendered_unordered (ts : List RTok) (h : WfRender ts)
+    (hun : ∀ tok ∈ ts, (∃ t, tok = .text t) ∨ tok = .pct ∨ ∃ fmt c, tok = .arg none fmt c) :
+    getPrintfSpecs (render ts) = .ok ((rargs ts).map (fun a => some a.2)) :=
+  C06R.specs_rendered_unordered ts h hun
+
+/-- Ordered arguments without a gap: position `i` holds the type of the last token numbered `i + 1`. -/
+theorem specs_rendered_ordered (ts : List RTok) (h : WfRender ts)
+    (hord : ∀ tok ∈ ts, (∃ t, tok = .text t) ∨ tok = .pct ∨ ∃ n fmt c, tok = .arg (some n) fmt c)
+    (hgap : ¬ GapR ts) :
+    getPrintfSpecs (render ts) = .ok (positional (rargs ts)) :=
+  C06R.specs_rendered_ordered ts h hord hgap
+
+/-- **Reordering invariance**: any permutation of a token list made of text, `%%` and ordered
+    arguments (the same number always with the same type) gives the same result.  No hypothesis on
+    the permuted list: without lone `%` every order is separated. -/
+theorem specs_rendered_reorder (ts ts' : List RTok) (hwf : ∀ t ∈ ts, WfTok t) (hperm : ts.Perm ts')
+    (hord : ∀ tok ∈ ts, (∃ t, tok = .text t) ∨ tok = .pct ∨ ∃ n fmt c, tok = .arg (some n) fmt c)
+    (hcons : Consistent (rargs ts)) :
+    getPrintfSpecs (render ts) = getPrintfSpecs (render ts') :=
+  C06R.specs_reorder_perm ts ts' hwf hperm hord hcons
+
+/-- … also when the text between the arguments changes (only the non-text tokens are permuted). -/
+theorem specs_rendered_reorder_text (ts ts' : List RTok) (h : WfRender ts) (h' : WfRender ts')
+    (hperm : (ts.filterMap tokA).Perm (ts'.filterMap tokA))
+    (hord : ∀ tok ∈ ts, (∃ t, tok = .text t) ∨ tok = .pct ∨ ∃ n fmt c, tok = .arg (some n) fmt c)
+    (hcons : Consistent (rargs ts)) :
+    getPrintfSpecs (render ts) = getPrintfSpecs (render ts') :=
+  C06R.specs_reorder_rendered ts ts' h h' hperm hord hcons
+
+/-- **`%%` and text are irrelevant**: two assembled values with the same sequence `sig` of lone-`%` and
+    argument tokens have the same specifier list or the same kind of error (`kindOf` forgets the
+    offset of the error, the only thing text can move). -/
+theorem specs_rendered_ignore_text_pct (ts ts' : List RTok) (h : WfRender ts) (h' : WfRender ts')
+    (hsig : sig ts = sig ts') :
+    kindOf (getPrintfSpecs (render ts)) = kindOf (getPrintfSpecs (render ts')) :=
+  C06R.specs_text_pct_invariant ts ts' h h' hsig
 
 /-! ## checkPrintf -/
 
@@ -122,6 +185,26 @@ theorem printf_malformed_error (R : List (Option Text)) (l10nValue msg : Text) (
     (h : getPrintfSpecs l10nValue = .error (.printf msg pos)) :
     checkPrintf R l10nValue = some [⟨.error, .val pos, msg, .printf⟩] :=
   checkPrintf_malformed R l10nValue msg pos h
+
+/-- **printf verdict for an assembled localized value**, stated on its tokens: `checkPrintf` never
+    raises, and it reports an error iff the tokens contain a lone `%`, mix the two styles, leave a gap
+    in the ordered numbers, or the closed-form specifier list of the tokens is not a prefix of `R`. -/
+theorem printf_rendered_error_iff (R : List (Option Text)) (ts : List RTok) (h : WfRender ts) :
+    ∃ fs, checkPrintf R (render ts) = some fs ∧
+      (hasError fs ↔ (RTok.lone ∈ ts ∨ MixedR ts ∨ GapR ts) ∨
+        (∃ L, specsSpec (expectedFrom 0 ts) = .ok L ∧ ¬ L <+: R)) := by
+  obtain ⟨fs, hfs, hiff⟩ := printf_error_iff R (render ts)
+  obtain ⟨herr, hkind⟩ := specs_rendered_error_iff ts h
+  refine ⟨fs, hfs, ?_⟩
+  rw [hiff, ← herr, ← specs_of_rendered ts h]
+  constructor
+  · rintro (⟨msg, pos, he⟩ | hL)
+    · exact Or.inl ⟨_, he⟩
+    · exact Or.inr hL
+  · rintro (⟨e, he⟩ | hL)
+    · obtain ⟨msg, pos, rfl⟩ := hkind e he
+      exact Or.inl ⟨msg, pos, he⟩
+    · exact Or.inr hL
 
 /-! ## the whole check -/
 
@@ -267,6 +350,32 @@ theorem plural_vars_sets (pats pats' lpats lpats' : List Nat)
     varsVerdict pats lpats = varsVerdict pats' lpats' :=
   varsVerdict_congr pats pats' lpats lpats' h1 h2
 
+/-! ### plural values assembled from tokens
+
+`PTok` = text | `#n`.  `WfRenderP ts`: text tokens contain no `#`, and a `#n` token is followed by the
+end of the value or by a character that is not a digit (it would extend `n`). -/
+
+/-- **The variables of an assembled plural value are exactly its `#n` tokens** (in order, any number
+    of tokens); both regex occurrences of `check_plural` are the regex `rePlural`. -/
+theorem plural_vars_rendered (ts : List PTok) (h : WfRenderP ts) :
+    pluralVars Gen.Pat.checks_properties_PropertiesChecker_check_plural_0 (renderP ts) = some (varsOf ts) ∧
+    pluralVars Gen.Pat.checks_properties_PropertiesChecker_check_plural_1 (renderP ts) = some (varsOf ts) :=
+  ⟨C06R.pluralVars_render ts h, C06R.pluralVars_render ts h⟩
+
+/-- **plural verdict on assembled values**: the variable verdict is `varsVerdict` of the `#n` tokens
+    of the reference and of the localized value. -/
+theorem plural_rendered_verdict (e : Ents) (rts lts : List PTok) (hr : WfRenderP rts) (hl : WfRenderP lts)
+    (hur : unescape e.refRaw = some (renderP rts)) (hul : unescape e.l10nRaw = some (renderP lts))
+    (hg : pluralGate e.refComment e.refKey (renderP rts) = true) :
+    ∃ known, getPlural e.locale = some known ∧
+      check e = some (baseCheck e ++
+        (formsVerdict known ((renderP lts).count 59) ++ varsVerdict (varsOf rts) (varsOf lts))) := by
+  obtain ⟨known, pats, lpats, hk, hp, hlp, hc⟩ := plural_verdict e _ _ hur hul hg
+  rw [(plural_vars_rendered rts hr).1] at hp
+  rw [(plural_vars_rendered lts hl).2] at hlp
+  cases hp; cases hlp
+  exact ⟨known, hk, hc⟩
+
 /-! ## non-vacuity: the model evaluated on concrete values -/
 
 -- "%2$d %1$S": ordered arguments, reordered
@@ -319,5 +428,83 @@ example : (match getPrintfSpecs [37,49,36,83,32,37,49,36,100], getPrintfSpecs [3
     This is why `difflib_prefix` is proved about the port and not assumed as a contract. -/
 example : ValidOpcodes [1, 1] [1] [⟨.delete, 0, 1, 0, 0⟩, ⟨.equal, 1, 2, 0, 1⟩] := by
   simp [ValidOpcodes, ValidFrom]
+
+/-! ### values assembled from tokens: non-vacuity and negation witnesses -/
+
+-- "%2$d a %1$5.2f%%": a well-formed, separated token list with ordered arguments, width and precision
+example : WfRender [.arg (some 2) [] 100, .text [32, 97, 32], .arg (some 1) [53, 46, 50] 102, .pct] := by
+  refine ⟨?_, by simp [Separated]⟩
+  intro t ht
+  simp only [List.mem_cons, List.mem_nil_iff, or_false] at ht
+  rcases ht with rfl | rfl | rfl | rfl
+  · exact ⟨fun n hn => (by cases hn; decide), ⟨[], [], rfl, Or.inl rfl, Or.inl rfl⟩, by decide⟩
+  · show 37 ∉ [32, 97, 32]; decide
+  · exact ⟨fun n hn => (by cases hn; decide),
+      ⟨[53], [46, 50], rfl, Or.inr (Or.inr ⟨by decide, by decide⟩),
+        Or.inr (Or.inr (Or.inr ⟨[50], by decide, by decide, rfl⟩))⟩, by decide⟩
+  · trivial
+
+-- the family is unbounded: `%S` repeated k times (and `% ` repeated k times) for every k
+example (k : Nat) : WfRender (List.replicate k (RTok.arg none [] 83)) := by
+  refine ⟨?_, C06R.separated_of_no_lone (by simp [List.mem_replicate])⟩
+  intro t ht
+  obtain ⟨_, rfl⟩ := List.mem_replicate.mp ht
+  exact ⟨fun n hn => (by cases hn), ⟨[], [], rfl, Or.inl rfl, Or.inl rfl⟩, by decide⟩
+
+-- a lone `%` followed by a blank is separated; the classification then reports the error
+example : WfRender [.lone, .text [32, 100]] ∧ ∃ e, getPrintfSpecs (render [.lone, .text [32, 100]]) = .error e := by
+  have h : WfRender [.lone, .text [32, 100]] := by
+    refine ⟨?_, ?_⟩
+    · intro t ht
+      simp only [List.mem_cons, List.mem_nil_iff, or_false] at ht
+      rcases ht with rfl | rfl
+      · trivial
+      · show 37 ∉ [32, 100]; decide
+    · refine ⟨?_, trivial⟩
+      intro c hc
+      have : c = 32 := by simpa [render, renderTok] using hc.symm
+      subst this
+      exact ⟨by decide, by decide, by decide, by decide, by decide⟩
+  exact ⟨h, (specs_rendered_error_iff _ h).1.mpr (Or.inl (by simp))⟩
+
+/-! negation witnesses for `Separated` / `WfTok` (the value lexes to OTHER tokens than intended):
+    * a lone `%` followed by the text `1$S` is the argument `%1$S`;
+    * a text token containing `%` (`%S` as text) is an argument;
+    * the number `0` (`%0$S`) is not an argument number: the `%` is lone. -/
+example : atoks (render [.lone, .text [49, 36, 83]]) = some [(0, ATok.arg (some 1) [83])] ∧
+    expectedFrom 0 [.lone, .text [49, 36, 83]] = [(0, ATok.lone)] ∧
+    ¬ Separated [.lone, .text [49, 36, 83]] := by
+  refine ⟨by decide +kernel, by decide +kernel, ?_⟩
+  rintro ⟨h, _⟩
+  exact (h 49 (by simp [render, renderTok])).2.1 (by decide)
+example : atoks (render [.text [37, 83]]) = some [(0, ATok.arg none [83])] ∧
+    expectedFrom 0 [.text [37, 83]] = [] := by decide +kernel
+example : atoks (render [.arg (some 0) [] 83]) = some [(0, ATok.lone)] ∧
+    expectedFrom 0 [.arg (some 0) [] 83] = [(0, ATok.arg (some 0) [83])] := by decide +kernel
+
+-- plural: "#1 of #22;" is well formed; "#1" followed by the text "2" is the variable 12
+example : WfRenderP [.var 1, .text [32, 111, 102, 32], .var 22, .text [59]] := by
+  refine ⟨?_, ?_⟩
+  · intro t ht
+    simp only [List.mem_cons, List.mem_nil_iff, or_false] at ht
+    rcases ht with rfl | rfl | rfl | rfl
+    · trivial
+    · show 35 ∉ [32, 111, 102, 32]; decide
+    · trivial
+    · show 35 ∉ [59]; decide
+  · refine ⟨?_, ?_, trivial⟩
+    · intro c hc
+      have : c = 32 := by
+        have : (renderP [PTok.text [32, 111, 102, 32], PTok.var 22, PTok.text [59]]).head? = some 32 := by
+          decide +kernel
+        rw [this] at hc; cases hc; rfl
+      subst this; decide
+    · intro c hc
+      have : c = 59 := by
+        have : (renderP [PTok.text [59]]).head? = some 59 := by decide +kernel
+        rw [this] at hc; cases hc; rfl
+      subst this; decide
+example : pluralVars rePlural (renderP [.var 1, .text [50]]) = some [12] ∧ varsOf [.var 1, .text [50]] = [1] := by
+  decide +kernel
 
 end C06
